@@ -83,6 +83,9 @@ def equiv(a, b, rules):
     return True
 
 
+TREE_PATH_VENDORS = ("huawei", "cisco", "arista", "nexus", "b4com")   # BlockExitFormatter.cmd_paths
+
+
 def run_chain(case):
     from annet import api
     from annet.vendors import registry_connector
@@ -152,7 +155,10 @@ def model(case, resp):
         if "err" in p:
             out.append({"err": p["err"]})
             continue
-        out.append({"paths": s["paths"], "after": a["ok"], "patch": p["patch"]})
+        # the command paths: the real formatter.cmd_paths against the model's linearisation (ConvergeNested.treePaths,
+        # the object of C01_nested_converges_paths) for the block-exit formatters
+        paths = p["tree_paths"] if case["vendor"] in TREE_PATH_VENDORS else s["paths"]
+        out.append({"paths": paths, "after": a["ok"], "patch": p["patch"]})
     return {"steps": out, "full": steps_i}
 
 
